@@ -19,6 +19,27 @@ theorem ceilMul_eq (x m : Nat) : Gen.ceilMul x m = ceilMul x m := rfl
 theorem floorMul_eq (x m : Nat) : Gen.floorMul x m = floorMul x m := rfl
 /-- `Error::offset` (`base/src/error.rs`) -/
 theorem err_offset {α} (e : Err) (n : Nat) : (Res.err e : Res α).offset n = .err ⟨e.kind, Gen.errOffset e.pos n⟩ := rfl
+/-- the checked entry points (`FlatValidate::validate`, `from_bytes`, `from_mut_bytes`, `Emplacer::emplace`, `new_in_place`): the
+alignment / minimum-size test is made on the whole input and the unchecked function then runs on the same bytes;
+`assign_in_place` runs the emplacer, unchecked, on the value's own view -/
+theorem slice_take_len (s : Slice) : s.take s.len = s := by
+  cases s; simp [Slice.take, Slice.len]
+theorem validate_shape (d : Dict) (s : Slice) :
+    d.validate s = (checkAlignMin d.align d.minSize (s.take (Gen.traitsFromBytes (Gen.traitsValidate s.len)))).bind fun _ =>
+      d.validateU (s.take (Gen.traitsFromMutBytes (Gen.traitsValidate s.len))) := by
+  simp only [Gen.traitsFromBytes, Gen.traitsFromMutBytes, Gen.traitsValidate, slice_take_len]; rfl
+theorem emplace_shape (t : Ty) (i : Init) (s : Slice) :
+    emplace t i s =
+      match checkAlignMin t.dict.align t.dict.minSize (s.take (Gen.traitsNewInPlace (Gen.emplacerEmplace s.len))) with
+      | .err e => .ok ⟨s.bytes, .error e⟩
+      | .fault f => .fault f
+      | .ok () => emplaceU t i s := by
+  simp only [Gen.traitsNewInPlace, Gen.emplacerEmplace, slice_take_len]; rfl
+theorem assign_shape (t : Ty) (i : Init) (s : Slice) :
+    assign t i s = (t.dict.viewLen s.len).bind fun v =>
+      (emplaceU t i (s.take (Gen.traitsAssign v))).bind fun o => .ok ⟨o.bytes ++ s.bytes.drop v, o.res⟩ := rfl
+theorem entry_untranslatable_none : (Gen.traitsValidate_untranslatable || Gen.traitsFromBytes_untranslatable || Gen.traitsFromMutBytes_untranslatable ||
+    Gen.emplacerEmplace_untranslatable || Gen.traitsNewInPlace_untranslatable || Gen.traitsAssign_untranslatable) = false := by decide
 theorem untranslatable_none : (Gen.errOffset_untranslatable || Gen.max_untranslatable || Gen.min_untranslatable || Gen.ceilMul_untranslatable || Gen.floorMul_untranslatable) = false := by decide
 
 /-! ### field walkers of `utils/iter.rs` and the `fold_size!` / `fold_min_size!` macros (C04, C05) -/
@@ -454,7 +475,24 @@ theorem guard_initWalker (fs : List Ty) (last : Ty) (vals : List Bytes) (li : In
       (s.take (floorMul s.len (alignL (dictL fs ++ [last.dict])))) = .err e := h
   cases e
   simp [emplaceU, h', Gen.initWalkerErrPos]
-theorem guards_untranslatable_none : (Gen.gBoolInvalid_untranslatable || Gen.arrElemStart_untranslatable || Gen.arrElemLen_untranslatable || Gen.arrElemErrPos_untranslatable || Gen.flexFillItemErrPos_untranslatable || Gen.flexItemErrPos_untranslatable || Gen.flexSlotReadErrPos_untranslatable || Gen.uenumPayloadErrPos_untranslatable || Gen.vecElemErrPos_untranslatable || Gen.strUtf8ErrPos_untranslatable || Gen.cVecElemsVisited_untranslatable || Gen.gIterCheckAlign_untranslatable || Gen.gIterCheckMin_untranslatable || Gen.initWalkerErrPos_untranslatable || Gen.iterNewChecks_untranslatable || Gen.cFlexTruncNoop_untranslatable || Gen.cFlexTruncEmpty_untranslatable || Gen.cFlexPopSome_untranslatable || Gen.gFlexPushRoom_untranslatable || Gen.flexPushItemErrPos_untranslatable || Gen.gEnumVariantRoom_untranslatable || Gen.cTagInRange_untranslatable || Gen.gCheckAlign_untranslatable || Gen.gCheckMin_untranslatable || Gen.gVecValidate_untranslatable ||
+/-- the generated enum emplacer tests the chosen variant's room and alignment on the floored payload *before* it writes the tag, and
+reports the refusal at the extracted offset with nothing written -/
+theorem guard_initEnum (tag : LenTy) (vs : List (List Ty)) (idx : Nat) (vals : List Bytes) (li : Option Init) (s : Slice) (e : Err)
+    (hroom : ¬ s.len < ceilMul tag.size (max tag.align (alignLL (dictLL vs))))
+    (hv : ((dictLL vs).getD idx []).isEmpty = false)
+    (h : checkAlignMin (alignL ((dictLL vs).getD idx [])) (minSizeL ((dictLL vs).getD idx []) 0)
+      ((s.drop (ceilMul tag.size (max tag.align (alignLL (dictLL vs))))).take
+        (Gen.initEnumFloor (s.len - ceilMul tag.size (max tag.align (alignLL (dictLL vs)))) (max tag.align (alignLL (dictLL vs))))) = .err e) :
+    emplaceU (.uenum tag vs) (.uenum idx vals li) s =
+      .ok ⟨s.bytes, .error ⟨e.kind, e.pos + Gen.initEnumCheckPos (ceilMul tag.size (max tag.align (alignLL (dictLL vs))))⟩⟩ := by
+  have h' : checkAlignMin (alignL ((dictLL vs).getD idx [])) (minSizeL ((dictLL vs).getD idx []) 0)
+      ((s.drop (ceilMul tag.size (max tag.align (alignLL (dictLL vs))))).take
+        (floorMul (s.len - ceilMul tag.size (max tag.align (alignLL (dictLL vs)))) (max tag.align (alignLL (dictLL vs))))) = .err e := h
+  cases e
+  simp only [List.getD_eq_getElem?_getD] at hv h'
+  have hv' : (dictLL vs)[idx]?.getD [] ≠ [] := by intro hh; rw [hh] at hv; simp at hv
+  simp [emplaceU, hroom, hv', h', Gen.initEnumCheckPos]
+theorem guards_untranslatable_none : (Gen.initEnumFloor_untranslatable || Gen.initEnumCheckPos_untranslatable || Gen.gBoolInvalid_untranslatable || Gen.arrElemStart_untranslatable || Gen.arrElemLen_untranslatable || Gen.arrElemErrPos_untranslatable || Gen.flexFillItemErrPos_untranslatable || Gen.flexItemErrPos_untranslatable || Gen.flexSlotReadErrPos_untranslatable || Gen.uenumPayloadErrPos_untranslatable || Gen.vecElemErrPos_untranslatable || Gen.strUtf8ErrPos_untranslatable || Gen.cVecElemsVisited_untranslatable || Gen.gIterCheckAlign_untranslatable || Gen.gIterCheckMin_untranslatable || Gen.initWalkerErrPos_untranslatable || Gen.iterNewChecks_untranslatable || Gen.cFlexTruncNoop_untranslatable || Gen.cFlexTruncEmpty_untranslatable || Gen.cFlexPopSome_untranslatable || Gen.gFlexPushRoom_untranslatable || Gen.flexPushItemErrPos_untranslatable || Gen.gEnumVariantRoom_untranslatable || Gen.cTagInRange_untranslatable || Gen.gCheckAlign_untranslatable || Gen.gCheckMin_untranslatable || Gen.gVecValidate_untranslatable ||
     Gen.gVecFromArray_untranslatable || Gen.gStrValidate_untranslatable || Gen.gFlexSlotAlign_untranslatable || Gen.gFlexBadOffset_untranslatable ||
     Gen.gFlexShort_untranslatable || Gen.gFlexFillRoom_untranslatable || Gen.gFlexFillSeal_untranslatable || Gen.gFlexPushSeal_untranslatable) = false := by decide
 end FV.Bridge
